@@ -51,7 +51,9 @@ struct iora_udp_ghost {
   struct { size_t front_lo; size_t calls, ok, again, err; bool is_sendto; int fd; const uint8_t *p; int n; socklen_t tolen; uint8_t to_gb; int flags; int ret; int err_no;
            size_t w_calls; const uint8_t *w_p; int w_n; socklen_t w_tolen; uint8_t w_to_gb; } tx;
   struct { unsigned acceptCb_calls; SessionId acceptCb_sid; bool acceptCb_locked; unsigned dataCb_calls; SessionId dataCb_sid; const uint8_t *dataCb_p; size_t dataCb_n; bool dataCb_locked;
-           unsigned errorCb_calls; } rx;
+           unsigned errorCb_calls; unsigned acceptCb_datas_before; TransportAddress acceptCb_addr; uint8_t dataCb_byte_gk; bool dataCb_sess_ok; MonoTime dataCb_time;
+           unsigned connectCb_calls; SessionId connectCb_sid; bool connectCb_locked; } rx;
+  struct { unsigned calls; int fd; uint8_t *buf; int buflen; int ret; size_t dgram_len; uint8_t byte_gk; socklen_t fromlen; uint8_t from_gb; iora_strid key; unsigned key_calls; bool key_of_source; } rc;
 } G;
 /* close callback */
 #define G_closeCb_calls G.cl.closeCb_calls
@@ -147,6 +149,7 @@ typedef struct Session { SessionId id; Role role; int fd; ListenerId owner; sock
 #define Session_DEFAULT ((Session){ .id = 0, .role = Role_ServerPeer, .fd = -1, .owner = 0, .peer = {{0}}, .plen = 0, .pkey = 0, \
   .wq = {0}, .wantWrite = false, .closed = false, .created = 0, .lastActivity = 0, .connectPending = false, .connectStart = 0, .lastWriteProgress = 0 })
 typedef struct { SessionId sid; iora_vec payload; } SendReq;
+typedef struct { SessionId sid; ListenerId lid; iora_strid host; uint16_t port; } ViaReq;
 typedef struct { size_t ioReadChunk; size_t maxWriteQueue; bool closeOnBackpressure; bool useEdgeTriggered; size_t maxSessions; } TransportConfig;
 typedef struct { uint64_t accepted, connected, closed, errors, bytesIn, bytesOut, backpressureCloses; size_t sessionsCurrent, sessionsPeak; } AtomicStats;
 
@@ -161,7 +164,10 @@ typedef struct { bool end; Listener *second; } iora_lst_it;
 #define iora_it_is_end(i) ((i).end)
 
 static inline iora_peer_it iora_map1_peer_find(const iora_map1_peer *m, iora_strid k)
-{ iora_peer_it it; if (k == GPK) { it.end = !m->has; it.second = m->val; } else { it.end = nondet_bool(); it.second = nondet_u64(); } return it; }
+{ iora_peer_it it; if (k == GPK) { it.end = !m->has; it.second = m->val; }
+  /* another key: present or not, mapping to some session OTHER than the witness session (the case "k maps to session GSID" is examined exactly under the
+   * ghost choice GPK == k; the optimistic answer here keeps the witness state out of it) */
+  else { it.end = nondet_bool(); it.second = nondet_u64(); IORA_ASSUME(it.second != GSID); } return it; }
 static inline void iora_map1_peer_erase(iora_map1_peer *m, iora_strid k) { if (k == GPK) m->has = false; }
 static inline void iora_map1_peer_emplace(iora_map1_peer *m, iora_strid k, SessionId v) { if (k == GPK && !m->has) { m->has = true; m->val = v; } }
 
@@ -172,7 +178,7 @@ static inline iora_sess_it iora_map1_sess_find(const iora_map1_sess *m, SessionI
 { iora_sess_it it; if (k == GSID) { it.end = !m->has; it.second = m->val; } else { it.end = nondet_bool(); it.second = m->other; } return it; }
 /* R22: the map owns its sessions (unique_ptr): erase destroys the object, so any later use of it is a pointer obligation */
 static inline void iora_map1_sess_erase(iora_map1_sess *m, SessionId k)
-{ IORA_SESS_GUARDED(m); if (k == GSID && m->has) { m->has = false; free(m->val); m->val = NULL; } }
+{ IORA_SESS_GUARDED(m); if (k == GSID && m->has) { m->has = false; free(m->val); } }      /* val is left dangling: `has` is the presence bit */
 static inline void iora_map1_sess_emplace(iora_map1_sess *m, SessionId k, Session *s)
 { IORA_SESS_GUARDED(m);
   if (k == GSID) { IORA_ASSERT(!m->has, "ID1 a session id is inserted into _sessions at most once (ids are never reused)"); m->has = true; m->val = s; } }
@@ -230,6 +236,48 @@ static inline void iora_cb_onClose_call(UdpEngine *self, iora_cb_onClose cb, Ses
   G_closeCb_locked = !IORA_NO_LOCK_HELD(self); }
 static inline void iora_cb_onError_call(UdpEngine *self, iora_cb_onError cb, TransportError e)
 { (void)self; (void)e; IORA_ASSERT(cb.set, "std::function called only when non-empty"); IORA_BUMP(G_errorCb_calls); }
+
+/* ---- receive path ---- */
+/* the per-datagram receive buffer `std::vector<uint8_t> buf; buf.resize(ioReadChunk)`: real memory of exactly that size (A: allocation succeeds, bad_alloc is not modelled) */
+typedef struct { uint8_t *p; size_t n; } iora_rxbuf;
+#define iora_rxbuf_DEFAULT ((iora_rxbuf){0, 0})
+static inline void iora_rxbuf_resize(iora_rxbuf *v, size_t n) { v->p = (uint8_t *)malloc(n ? n : 1); IORA_ASSUME(v->p != NULL); v->n = n; }
+static inline uint8_t *iora_rxbuf_data(iora_rxbuf *v) { return v->p; }
+static inline size_t iora_rxbuf_size(const iora_rxbuf *v) { return v->n; }
+/* std::make_unique<Session>(): a fresh object with the default member initialisers */
+static inline Session *iora_new_Session(void) { Session *s = (Session *)malloc(sizeof(Session)); IORA_ASSUME(s != NULL); *s = Session_DEFAULT; return s; }
+#define IORA_UDP_MAX_PAYLOAD 65507u
+/* recvfrom(2) on a non-blocking UDP socket: -1 with any errno (> 0), or ONE datagram: the kernel copies min(len, datagram length) bytes, DISCARDS the rest
+ * (that is how truncation happens), and stores the source address (length <= sizeof(sockaddr_storage)).  The payload byte at the ghost index GK and the
+ * address byte at GB are recorded. */
+static inline int iora_sys_recvfrom(int fd, uint8_t *buf, int len, int flags, sockaddr *from, socklen_t *fl)
+{ (void)flags; IORA_ASSERT(len >= 0, "RX0 buffer length fits the int length argument");
+  IORA_ASSERT(*fl == sizeof(sockaddr_storage), "RX0 recvfrom is given the full size of the address buffer");
+  IORA_BUMP(G.rc.calls); G.rc.fd = fd; G.rc.buf = buf; G.rc.buflen = len;
+  if (nondet_bool()) { int e = nondet_int(); IORA_ASSUME(e > 0); iora_errno = e; G.rc.ret = -1; return -1; }
+  size_t dl = nondet_size_t(); IORA_ASSUME(dl <= IORA_UDP_MAX_PAYLOAD); G.rc.dgram_len = dl;
+  int r = dl <= (size_t)len ? (int)dl : len;
+  sockaddr_storage a; socklen_t al = nondet_u64() & 0xff; IORA_ASSUME(al <= sizeof(sockaddr_storage));
+  *from = a; *fl = al; G.rc.fromlen = al; G.rc.from_gb = GB < sizeof(sockaddr_storage) ? a.b[GB] : 0;
+  if (GK < (size_t)r) { buf[GK] = nondet_u8(); G.rc.byte_gk = buf[GK]; }
+  G.rc.ret = r; return r; }
+/* key(ss): getnameinfo(NUMERICHOST|NUMERICSERV) text "host:port" interned - a function of the address alone (A); here: some id, recorded */
+static inline iora_strid UdpEngine_key(UdpEngine *self, sockaddr_storage ss)
+{ (void)self; IORA_BUMP(G.rc.key_calls); G.rc.key_of_source = (GB >= sizeof(sockaddr_storage) || ss.b[GB] == G.rc.from_gb); G.rc.key = nondet_u64(); return G.rc.key; }
+static inline TransportAddress UdpEngine_addressFromSockaddr(UdpEngine *self, sockaddr_storage ss) { (void)self; (void)ss; return nondet_u64(); }
+/* bumpSess(): sessionsCurrent++ and peak = max(peak, current) (its CAS loop is not under contract) */
+static inline void UdpEngine_bumpSess(UdpEngine *self)
+{ self->_atomicStats.sessionsCurrent++; if (self->_atomicStats.sessionsCurrent > self->_atomicStats.sessionsPeak) self->_atomicStats.sessionsPeak = self->_atomicStats.sessionsCurrent; }
+static inline void iora_cb_onAccept_call(UdpEngine *self, iora_cb_onAccept cb, SessionId sid, TransportAddress a)
+{ IORA_ASSERT(cb.set, "std::function called only when non-empty"); IORA_BUMP(G.rx.acceptCb_calls); G.rx.acceptCb_sid = sid; G.rx.acceptCb_addr = a;
+  G.rx.acceptCb_datas_before = G.rx.dataCb_calls; G.rx.acceptCb_locked = !IORA_NO_LOCK_HELD(self); }
+static inline void iora_cb_onConnect_call(UdpEngine *self, iora_cb_onConnect cb, SessionId sid, TransportAddress a)
+{ (void)a; IORA_ASSERT(cb.set, "std::function called only when non-empty"); IORA_BUMP(G.rx.connectCb_calls); G.rx.connectCb_sid = sid; G.rx.connectCb_locked = !IORA_NO_LOCK_HELD(self); }
+static inline void iora_cb_onData_call(UdpEngine *self, iora_cb_onData cb, SessionId sid, const uint8_t *p, size_t n, MonoTime t)
+{ IORA_ASSERT(cb.set, "std::function called only when non-empty"); IORA_BUMP(G.rx.dataCb_calls); G.rx.dataCb_sid = sid; G.rx.dataCb_p = p; G.rx.dataCb_n = n; G.rx.dataCb_time = t;
+  G.rx.dataCb_byte_gk = GK < n ? p[GK] : 0; G.rx.dataCb_locked = !IORA_NO_LOCK_HELD(self);
+  /* the session the event is announced on is, at this moment, in the table, open, and keyed by the witness peer key */
+  G.rx.dataCb_sess_ok = (sid == GSID) ? (self->_sessions.has && self->_sessions.val != NULL && !self->_sessions.val->closed && self->_sessions.val->pkey == GPK) : true; }
 
 /* engine helpers that are not under contract in these units (epoll bookkeeping) */
 static inline void UdpEngine_delEpoll(UdpEngine *self, int fd)
